@@ -654,7 +654,18 @@ pub fn suite_c08(ctx: &mut Ctx, label: &str) {
                         base: *base,
                         subpath: sub.to_vec(),
                         flags: libc::O_PATH,
-                        meta: format!("env={label} class={class} uid={}", unsafe { libc::geteuid() }),
+                        meta: {
+                            let host = match base {
+                                ProcfsBase::ProcRoot => format!("/proc/{}", String::from_utf8_lossy(sub)),
+                                ProcfsBase::ProcSelf => format!("/proc/self/{}", String::from_utf8_lossy(sub)),
+                                _ => format!("/proc/thread-self/{}", String::from_utf8_lossy(sub)),
+                            };
+                            format!(
+                                "env={label} class={class} uid={} host_visible={}",
+                                unsafe { libc::geteuid() },
+                                fs::symlink_metadata(&host).is_ok() as u8
+                            )
+                        },
                     },
                 );
             }
@@ -706,5 +717,153 @@ pub fn suite_new(ctx: &mut Ctx) {
         s.push_str(&ops::fd_table_diff(&before, &after, keep.as_ref().map(|k| k.1)));
         s.push_str("\nend\n");
         ctx.out.write_all(s.as_bytes()).unwrap();
+    }
+}
+
+// ---------------------------------------------------------------------------
+// reopen (C09)
+// ---------------------------------------------------------------------------
+
+/// reopen of handles to every inode type, at forced descriptor numbers, after
+/// rename / replace / unlink histories applied to the handle's path.
+pub fn suite_reopen(ctx: &mut Ctx, seed: u64, thorough: bool) {
+    use crate::tree::{Entry, Kind, TreeSpec};
+    use pathrs::{HandleRef, Root};
+    use std::os::unix::io::{AsFd, BorrowedFd};
+    let mut rng = Rng::new(seed);
+    let mut spec = TreeSpec::default();
+    for (p, k) in [
+        (&b"file"[..], Kind::File),
+        (b"dir", Kind::Dir),
+        (b"dir/inner", Kind::File),
+        (b"fifo", Kind::Fifo),
+        (b"sock", Kind::Sock),
+        (b"link", Kind::Link(b"file".to_vec())),
+        (b"other", Kind::File),
+    ] {
+        spec.entries.push(Entry { path: p.to_vec(), kind: k, mode: 0o644 | if p == b"dir" { 0o111 } else { 0 } });
+    }
+    let targets: [(&[u8], bool); 6] = [
+        (b"file", false),
+        (b"dir", false),
+        (b"fifo", false),
+        (b"sock", false),
+        (b"link", true),
+        (b"link", false),
+    ];
+    let fdnums: Vec<i32> = if thorough {
+        vec![0, 1, 2, 3, 4, 5, 9, 10, 63, 64, 100, 255, 256, 1000, 1023]
+    } else {
+        vec![0, 1, 2, 3, 10, 1023]
+    };
+    let flagsets: [i32; 9] = [
+        libc::O_RDONLY | libc::O_NONBLOCK,
+        libc::O_WRONLY | libc::O_NONBLOCK,
+        libc::O_RDWR | libc::O_NONBLOCK,
+        libc::O_PATH,
+        libc::O_RDONLY | libc::O_NONBLOCK | libc::O_DIRECTORY,
+        libc::O_RDONLY | libc::O_NONBLOCK | libc::O_NOFOLLOW,
+        libc::O_RDONLY | libc::O_NONBLOCK | libc::O_APPEND | libc::O_NOATIME,
+        libc::O_RDWR | libc::O_CREAT,
+        libc::O_RDWR | libc::O_TMPFILE,
+    ];
+    let histories = ["none", "rename", "replace", "unlink"];
+    let mut id = 0;
+    for (target, nofollow) in targets {
+        for &n in &fdnums {
+            for history in histories {
+                let flags = *rng.pick(&flagsets);
+                let (top, rootdir) = crate::setup_case_dir(ctx, "rcase", &spec);
+                let labels = crate::tree::Labels::of_tree(&spec, &rootdir);
+                let root = Root::open(&rootdir).expect("open root");
+                let handle = if nofollow {
+                    root.resolve_nofollow(ops::p(target))
+                } else {
+                    root.resolve(ops::p(target))
+                }
+                .expect("resolve handle");
+                // history applied to the handle's path
+                let path = rootdir.join(std::ffi::OsStr::from_bytes(target));
+                let real = if target == b"link" && !nofollow { rootdir.join("file") } else { path.clone() };
+                match history {
+                    "rename" => {
+                        let _ = fs::rename(&real, rootdir.join("renamed"));
+                    }
+                    "replace" => {
+                        let _ = fs::rename(&real, rootdir.join("renamed"));
+                        let _ = fs::rename(rootdir.join("other"), &real);
+                    }
+                    "unlink" => {
+                        let _ = fs::remove_file(&real).or_else(|_| fs::remove_dir_all(&real));
+                    }
+                    _ => {}
+                }
+                // force the descriptor number
+                let saved: Option<OwnedFd> = {
+                    let fl = unsafe { libc::fcntl(n, libc::F_GETFD) };
+                    if fl >= 0 {
+                        let d = unsafe { libc::fcntl(n, libc::F_DUPFD_CLOEXEC, 1030) };
+                        Some(unsafe { OwnedFd::from_raw_fd(d) })
+                    } else {
+                        None
+                    }
+                };
+                let hfd = handle.as_fd().as_raw_fd();
+                let forced = unsafe { libc::dup3(hfd, n, libc::O_CLOEXEC) };
+                assert_eq!(forced, n, "dup3 to {n}");
+                id += 1;
+                let mut s = format!(
+                    "case r{id}\nmeta seed={seed} suite=reopen target={} nofollow={} history={history} fdnum={n}\ntree {}\n",
+                    String::from_utf8_lossy(target),
+                    nofollow as u8,
+                    spec.entries.len()
+                );
+                s.push_str(&spec.lines());
+                s.push_str(&format!("op reopen {} {} {}\n", nofollow as u8, flags, hex(target)));
+                s.push_str(&crate::cfg_line(&root, false, pathrs::flags::ResolverFlags::empty()));
+                s.push('\n');
+                s.push_str(&format!("handle {}\n", ops::describe_fd(n, &labels)));
+                let before = ops::fd_table();
+                let href = HandleRef::from_fd(unsafe { BorrowedFd::borrow_raw(n) });
+                let (r, log) = ops::recorded(None, || href.reopen(OpenFlags::from_bits_retain(flags)));
+                let after = ops::fd_table();
+                s.push_str(&fmt::transcript(&log));
+                let ex = match r {
+                    Ok(Ok(f)) => {
+                        let fd: OwnedFd = f.into();
+                        s.push_str(&format!("res ok fd {}\n", ops::describe_fd(fd.as_raw_fd(), &labels)));
+                        let raw = fd.as_raw_fd();
+                        std::mem::forget(fd);
+                        Some(raw)
+                    }
+                    Ok(Err(e)) => {
+                        s.push_str(&format!("res err {}\n", ops::kind_str(&e.kind())));
+                        None
+                    }
+                    Err(m) => {
+                        s.push_str(&format!("res panic {}\n", hex(m.as_bytes())));
+                        None
+                    }
+                };
+                s.push_str(&ops::fd_table_diff(&before, &after, ex));
+                s.push_str("\nend\n");
+                if let Some(raw) = ex {
+                    unsafe { libc::close(raw) };
+                }
+                // restore descriptor n
+                match saved {
+                    Some(sv) => unsafe {
+                        libc::dup3(sv.as_raw_fd(), n, 0);
+                    },
+                    None => unsafe {
+                        libc::close(n);
+                    },
+                }
+                ctx.out.write_all(s.as_bytes()).unwrap();
+                drop(handle);
+                drop(root);
+                let _ = fs::remove_dir_all(&top);
+            }
+        }
     }
 }
